@@ -187,3 +187,69 @@ Proof.
   intros Hs H. unfold parse_tag in H. refine (run_parse_values _ Hs _ _ _ _ _ _ H).
   apply Forall_forall. intros x Hx. apply in_map_iff in Hx as (e & <- & _). left. reflexivity.
 Qed.
+
+(* ---- lifted to the reader: every tag of an accepted message is what its own Parse returned for one of
+   the segments, so its element values have the shape above ---- *)
+From Wire Require Import Model.Message Model.Reader Theory.ReaderFacts Theory.DispatchFacts.
+From WireGen Require Import Tags Reader.
+
+Definition from_parse (tgs : list (option tagval)) : Prop :=
+  forall i v, nth i tgs None = Some v -> exists line, parse_tag (nth i tags tag_Amount) line = POk v.
+
+Lemma lookup_marker_in mk l e : lookup_marker mk l = Some e -> exists k, In (k, e) l.
+Proof.
+  induction l as [|[k v] r IH]; cbn [lookup_marker]; [discriminate|].
+  destruct (bytes_eqb mk k); [intros H; injection H as <-; exists k; left; reflexivity|].
+  intros H. destruct (IH H) as [k' Hk]. exists k'. right. exact Hk.
+Qed.
+
+Lemma parse_line_from_parse l ln fi v : ob_dispatch_arms = true ->
+  parse_line l ln = inr (fi, v) -> parse_tag (nth fi tags tag_Amount) l = POk v.
+Proof.
+  intros Hob. unfold parse_line. destruct (rune_count l <? 6); [discriminate|].
+  destruct (lookup_marker (firstn 6 l) dispatch) as [[[[ti fi'] label] val]|] eqn:El; [|discriminate].
+  destruct (lookup_marker_in _ _ _ El) as [k Hin].
+  unfold ob_dispatch_arms in Hob. rewrite forallb_forall in Hob. specialize (Hob _ Hin). unfold arm_ok in Hob.
+  repeat (apply andb_true_iff in Hob as [Hob ?]). apply Nat.eqb_eq in Hob. subst fi'.
+  destruct (parse_tag (nth ti tags tag_Amount) l) as [v'|f e| |] eqn:Ep; try discriminate.
+  destruct val.
+  - destruct (validate_alone ti v'); try discriminate. intros E. injection E as <- <-. exact Ep.
+  - intros E. injection E as <- <-. exact Ep.
+Qed.
+
+Lemma read_lines_from_parse : ob_dispatch_arms = true -> forall lines ln tgs errs,
+  from_parse tgs -> from_parse (fst (read_lines lines ln tgs errs)).
+Proof.
+  intros Hob. induction lines as [|l r IH]; intros ln tgs errs Hp; cbn [read_lines]; [exact Hp|].
+  destruct (parse_line l (S ln)) as [e|[fi v]] eqn:El; [apply IH; exact Hp|].
+  apply IH. intros i w Hi. rewrite nth_set_tag in Hi.
+  destruct ((i =? fi) && (fi <? length tgs)) eqn:E.
+  - apply andb_true_iff in E as [E _]. apply Nat.eqb_eq in E. subst i. injection Hi as <-.
+    exists l. apply (parse_line_from_parse l (S ln) fi v Hob El).
+  - apply Hp. exact Hi.
+Qed.
+
+Lemma nth_all_none (l : list tagdesc) : forall i, nth i (map (fun _ => (None : option tagval)) l) None = None.
+Proof. induction l as [|x r IH]; intros [|i]; cbn; auto. Qed.
+
+Lemma empty_from_parse : from_parse empty_tags.
+Proof. intros i v H. unfold empty_tags in H. rewrite nth_all_none in H. discriminate H. Qed.
+
+Theorem accepted_tags_come_from_parse preset opts chunks final m : ob_dispatch_arms = true ->
+  read_model preset opts chunks final = ROk m -> from_parse (m_tags m).
+Proof.
+  intros Hob. unfold read_model. destruct (scan chunks final) as [toks stop].
+  pose proof (read_lines_from_parse Hob (flat_map sublines toks) 0 empty_tags [] empty_from_parse) as Hp.
+  destruct (read_lines (flat_map sublines toks) 0 empty_tags []) as [tgs errs]. cbn [fst] in Hp.
+  destruct (match stop with Some e => errs ++ [RScanner e] | None => errs end); [|discriminate].
+  destruct (verify _); try discriminate. intros H. injection H as <-. exact Hp.
+Qed.
+
+Theorem accepted_values preset opts chunks final m : ob_dispatch_arms = true ->
+  read_model preset opts chunks final = ROk m ->
+  forall i v, nth i (m_tags m) None = Some v ->
+  forallb step_trims (t_parse (nth i tags tag_Amount)) = true -> Forall val_ok (tv_elems v).
+Proof.
+  intros Hob Hr i v Hi Hs. destruct (accepted_tags_come_from_parse preset opts chunks final m Hob Hr i v Hi) as [line Hp].
+  exact (parse_tag_values _ line v Hs Hp).
+Qed.
